@@ -190,6 +190,25 @@ struct Acc {
     disc: Vec<(String, serde_json::Value)>,
 }
 
+/// Second shape (thorough only): a non-matching first line, two adjacent
+/// matching lines, a gap of two non-matching lines (so that context groups
+/// and their separators exist), and a last matching line.
+fn small_files_2() -> Vec<Vec<u8>> {
+    let base = b"x1\nm2\nm3\nx4\nx5\nm6\n";
+    let mut out = vec![base.to_vec()];
+    for i in 0..=base.len() {
+        let mut v = base.to_vec();
+        v.insert(i, 0);
+        out.push(v);
+    }
+    for i in 0..base.len() {
+        let mut v = base.to_vec();
+        v[i] = 0;
+        out.push(v);
+    }
+    out
+}
+
 fn small_files(pairs: bool) -> Vec<Vec<u8>> {
     let base = b"m1\nx2\nm3\nx4\n";
     let mut out = vec![base.to_vec()];
@@ -264,16 +283,23 @@ pub fn run(args: &Args) -> ! {
     let tier = args.tier;
     let mut ev = Evidence::new(args, "exploration");
     let mut verdict = Verdict::new("C14");
-    let files = small_files(tier == Tier::Thorough);
+    let thorough = tier == Tier::Thorough;
+    let mut files = small_files(thorough);
+    if thorough {
+        files.extend(small_files_2());
+    }
+    let ctxs: &[usize] = if thorough { &[0, 1, 2] } else { &[0, 1] };
+    let caps: &[usize] = if thorough { &[1, 2, 3, 4, 5, 6, 7, 8] } else { &[1, 2, 3, 4, 6] };
+    let frags: &[usize] = if thorough { &[1, 2, 3, 4, 5, 64] } else { &[1, 2, 3, 64] };
     // ---- library level ------------------------------------------------------
     let mut lib_cases: Vec<(usize, Bin, usize, usize, bool, bool, usize)> = vec![];
     for fi in 0..files.len() {
         for bin in [Bin::Quit, Bin::Convert, Bin::None] {
-            for ctx in [0usize, 1] {
+            for &ctx in ctxs {
                 for ml in [false, true] {
                     lib_cases.push((fi, bin, 64, 64, true, ml, ctx));
-                    for cap in [1usize, 2, 3, 4, 6] {
-                        for frag in [1usize, 2, 3, 64] {
+                    for &cap in caps {
+                        for &frag in frags {
                             lib_cases.push((fi, bin, cap, frag, false, ml, ctx));
                         }
                     }
@@ -339,7 +365,10 @@ pub fn run(args: &Args) -> ! {
     let rg = build_rg();
     let scratch = Scratch::new("c14");
     let mut cli_files: Vec<(String, PathBuf, Vec<u8>)> = vec![];
-    let small_for_cli: Vec<Vec<u8>> = small_files(false);
+    let mut small_for_cli: Vec<Vec<u8>> = small_files(false);
+    if thorough {
+        small_for_cli.extend(small_files_2());
+    }
     for (i, c) in small_for_cli.iter().enumerate() {
         let dir = scratch.path.join(format!("s{}", i));
         std::fs::create_dir_all(&dir).unwrap();
@@ -492,7 +521,7 @@ pub fn run(args: &Args) -> ! {
     ev.set("runs_dropping_the_file", lib.dropped + cli.dropped);
     ev.set(
         "rule",
-        "files: 'm1\\nx2\\nm3\\nx4\\n' with one NUL inserted at every offset, one NUL replacing every byte (thorough: also every pair of insertions), two unterminated variants; real scale: a 130 KiB file of 100-byte lines with a NUL at offsets {0,1,65450,65535,65536,65537,65599,70000,70805,70905 (inside the before-context window of the next match),len-2} and with the line straddling the 64 KiB sniff window being a matching line / a context line with its NUL beyond the window. Library level: Searcher + Standard printer, detection quit/convert/none x roll-buffer capacity {1,2,3,4,6} x read size {1,2,3,64} x slice x multi-line x context 0/1. CLI level: rg on every file x {implicit (directory), explicit path, stdin} x {default, --binary, --text} x {--mmap, --no-mmap} x {-n, -c, -l, -o, -A1, -B1, -C2, -U -B1, --passthru, --json, -U, -v, -r X} x pattern {m, never}. Oracle: no NUL byte on the output unless text mode; for standard output the statement's outcome table (printed lines = a prefix of the text-mode lines, all before the NUL; traversed: warning iff cut off after a printed line, never a notice; explicit/--binary: at most the notice, silence only if nothing matches); --text == reference with detection disabled; in the context modes an explicit / --binary file with a NUL-free matching line must show a match or the notice. distinct_nontrivial = runs on files that contain a NUL.",
+        "files: 'm1\\nx2\\nm3\\nx4\\n' with one NUL inserted at every offset, one NUL replacing every byte (thorough: also every pair of insertions), two unterminated variants; thorough also 'x1\\nm2\\nm3\\nx4\\nx5\\nm6\\n' (non-matching first line, adjacent matches, a two-line gap) with one NUL inserted at every offset / replacing every byte, at both levels; real scale: a 130 KiB file of 100-byte lines with a NUL at offsets {0,1,65450,65535,65536,65537,65599,70000,70805,70905 (inside the before-context window of the next match),len-2} and with the line straddling the 64 KiB sniff window being a matching line / a context line with its NUL beyond the window. Library level: Searcher + Standard printer, detection quit/convert/none x roll-buffer capacity {1,2,3,4,6} (thorough 1..8) x read size {1,2,3,64} (thorough {1,2,3,4,5,64}) x slice x multi-line x context 0/1 (thorough 0/1/2). CLI level: rg on every file x {implicit (directory), explicit path, stdin} x {default, --binary, --text} x {--mmap, --no-mmap} x {-n, -c, -l, -o, -A1, -B1, -C2, -U -B1, --passthru, --json, -U, -v, -r X} x pattern {m, never}. Oracle: no NUL byte on the output unless text mode; for standard output the statement's outcome table (printed lines = a prefix of the text-mode lines, all before the NUL; traversed: warning iff cut off after a printed line, never a notice; explicit/--binary: at most the notice, silence only if nothing matches); --text == reference with detection disabled; in the context modes an explicit / --binary file with a NUL-free matching line must show a match or the notice. distinct_nontrivial = runs on files that contain a NUL.",
     );
     ev.set("samples", json!([{"file": "m1\\nx2\\n\\x00m3\\nx4\\n", "mode": "explicit --no-mmap -n", "expected": "1:m1 then 'binary file matches' notice or just the notice"}]));
     ev.assume("--null-data is outside the property (it disables detection by design)");
